@@ -1,10 +1,17 @@
 use crate::framework::{Monitor, Tier};
 
 pub mod c09;
+pub mod c18;
+pub mod safety_uni;
+use crate::model::uni::Policy;
 
 pub fn by_id(id: &str) -> Option<Box<dyn Monitor>> {
     Some(match id {
+        "C01" => Box::new(safety_uni::SafetyUni { id: "C01", policy: Policy::FP }),
+        "C02" => Box::new(safety_uni::SafetyUni { id: "C02", policy: Policy::EDF }),
+        "C03" => Box::new(safety_uni::SafetyUni { id: "C03", policy: Policy::FIFO }),
         "C09" => Box::new(c09::C09),
+        "C18" => Box::new(c18::C18),
         _ => return None,
     })
 }
